@@ -46,6 +46,10 @@ func scenario(c config, behs []string) *sims.Scenario {
 // additionally insists on delivered evidence for every point behind an OK.
 func judge(r *core.Run, sc *sims.Scenario, out *sims.Outcome) {
 	r.Eval(1)
+	if out.Stuck {
+		r.Inconclusive("a call did not return within the watchdog (C09 / C17 decide that): " + sc.Desc())
+		return
+	}
 	if out.Panic != nil {
 		r.Count("panicked", 1) // C09's business
 		return
